@@ -46,6 +46,9 @@ type world struct {
 	kinds  []string // enabled kinds for this run
 	seq    int
 	kube   *kubeWorld
+	// recipe: a short scripted sequence of mutations aimed at one mechanism of the properties (rule precedence
+	// switch, export flip, mTLS flip); instantiated now and then between the random mutations
+	recipe []func(tp *engine.Tape) mutation
 }
 
 var allConfigKinds = []string{
@@ -486,8 +489,112 @@ func (wd *world) everTags() string {
 	return []string{"unique", "duphost", "dupns"}[wd.worst]
 }
 
+// put creates or updates one object through the ordinary bookkeeping.
+func (wd *world) put(kind, ns, name string, spec config.Spec, ctime int) mutation {
+	g := kindGVK[kind]
+	key := kind + "/" + ns + "/" + name
+	if cur, ok := wd.exists[key]; ok {
+		nc := cur.DeepCopy()
+		nc.Spec = spec
+		nc.ResourceVersion = ""
+		wd.exists[key] = nc
+		return mutation{kind: kind, desc: fmt.Sprintf("update %s %v", key, compactSpec(spec)), apply: func(inst *wisInstance) error {
+			_, err := inst.fds.Store().Update(nc.DeepCopy())
+			return err
+		}}
+	}
+	c := config.Config{Meta: config.Meta{GroupVersionKind: g, Name: name, Namespace: ns, CreationTimestamp: wlT0.Add(time.Duration(ctime) * time.Second)}, Spec: spec}
+	wd.exists[key] = c
+	return mutation{kind: kind, desc: fmt.Sprintf("create %s %v", key, compactSpec(spec)), apply: func(inst *wisInstance) error {
+		_, err := inst.fds.Store().Create(c.DeepCopy())
+		return err
+	}}
+}
+
+func (wd *world) del(kind, ns, name string) mutation {
+	g := kindGVK[kind]
+	key := kind + "/" + ns + "/" + name
+	delete(wd.exists, key)
+	return mutation{kind: kind, desc: "delete " + key, apply: func(inst *wisInstance) error {
+		return inst.fds.Store().Delete(g, name, ns, nil)
+	}}
+}
+
+// startRecipe queues a scripted sequence on the run's hot host.
+func (wd *world) startRecipe(tp *engine.Tape) {
+	h := wd.hot
+	if h == "" || h[0] == '*' {
+		h = "a.example.com"
+	}
+	lbs := []*networking.LoadBalancerSettings{
+		{LbPolicy: &networking.LoadBalancerSettings_Simple{Simple: networking.LoadBalancerSettings_ROUND_ROBIN}},
+		{LocalityLbSetting: &networking.LocalityLoadBalancerSetting{Distribute: []*networking.LocalityLoadBalancerSetting_Distribute{
+			{From: "region1/*", To: map[string]uint32{"region1/*": 80, "region2/*": 20}}, {From: "region2/*", To: map[string]uint32{"region2/*": 100}}}}},
+		{LocalityLbSetting: &networking.LocalityLoadBalancerSetting{Failover: []*networking.LocalityLoadBalancerSetting_Failover{{From: "region1", To: "region2"}}}},
+	}
+	se := func(exportTo []string) *networking.ServiceEntry {
+		return &networking.ServiceEntry{Hosts: []string{h}, Ports: []*networking.ServicePort{{Number: 80, Name: "http", Protocol: "HTTP"}},
+			Location: networking.ServiceEntry_MESH_INTERNAL, Resolution: networking.ServiceEntry_STATIC, ExportTo: exportTo,
+			Endpoints: []*networking.WorkloadEntry{
+				{Address: "10.1.7.1", Locality: "region1/zone1", Labels: map[string]string{"version": "v1"}},
+				{Address: "10.1.7.2", Locality: "region2/zone2", Labels: map[string]string{"version": "v2"}}}}
+	}
+	switch tp.Choose(3, "recipe") {
+	case 0: // rule precedence switch: a client-namespace rule overrides a root-namespace rule, then goes away / is retargeted
+		lo, hi := tp.Choose(3, "lbLow"), tp.Choose(3, "lbHigh")
+		od := &networking.OutlierDetection{Consecutive_5XxErrors: wrapperspb.UInt32(3)}
+		wd.recipe = []func(tp *engine.Tape) mutation{
+			func(tp *engine.Tape) mutation { return wd.put("ServiceEntry", "a", "se1", se(nil), 0) },
+			func(tp *engine.Tape) mutation {
+				return wd.put("DestinationRule", "istio-system", "dr3", &networking.DestinationRule{Host: h, TrafficPolicy: &networking.TrafficPolicy{LoadBalancer: lbs[lo], OutlierDetection: od}}, 0)
+			},
+			func(tp *engine.Tape) mutation {
+				return wd.put("DestinationRule", "a", "dr1", &networking.DestinationRule{Host: h, TrafficPolicy: &networking.TrafficPolicy{LoadBalancer: lbs[hi], OutlierDetection: od}}, 1)
+			},
+			func(tp *engine.Tape) mutation {
+				if tp.Bool(1, 2, "retarget") {
+					return wd.put("DestinationRule", "a", "dr1", &networking.DestinationRule{Host: "c.example.com"}, 1)
+				}
+				return wd.del("DestinationRule", "a", "dr1")
+			},
+		}
+	case 1: // export flip: the service disappears from and returns to the other namespaces
+		wd.recipe = []func(tp *engine.Tape) mutation{
+			func(tp *engine.Tape) mutation { return wd.put("ServiceEntry", "b", "se3", se([]string{"*"}), 0) },
+			func(tp *engine.Tape) mutation {
+				return wd.put("VirtualService", "a", "vs1", &networking.VirtualService{Hosts: []string{h}, Http: []*networking.HTTPRoute{{Route: []*networking.HTTPRouteDestination{{Destination: &networking.Destination{Host: h}}}}}}, 0)
+			},
+			func(tp *engine.Tape) mutation { return wd.put("ServiceEntry", "b", "se3", se([]string{"."}), 0) },
+			func(tp *engine.Tape) mutation { return wd.put("ServiceEntry", "b", "se3", se([]string{"a"}), 0) },
+		}
+	case 2: // mTLS flip by PeerAuthentication at namespace level, with a subset rule in place
+		wd.recipe = []func(tp *engine.Tape) mutation{
+			func(tp *engine.Tape) mutation { return wd.put("ServiceEntry", "a", "se1", se(nil), 0) },
+			func(tp *engine.Tape) mutation {
+				return wd.put("DestinationRule", "a", "dr1", &networking.DestinationRule{Host: h, Subsets: []*networking.Subset{{Name: "v1", Labels: map[string]string{"version": "v1"}}}}, 0)
+			},
+			func(tp *engine.Tape) mutation {
+				return wd.put("PeerAuthentication", "a", "default", &security.PeerAuthentication{Mtls: &security.PeerAuthentication_MutualTLS{Mode: security.PeerAuthentication_MutualTLS_STRICT}}, 0)
+			},
+			func(tp *engine.Tape) mutation {
+				return wd.put("PeerAuthentication", "a", "default", &security.PeerAuthentication{Mtls: &security.PeerAuthentication_MutualTLS{Mode: security.PeerAuthentication_MutualTLS_DISABLE}}, 0)
+			},
+			func(tp *engine.Tape) mutation { return wd.del("PeerAuthentication", "a", "default") },
+		}
+	}
+}
+
 func (wd *world) next(tp *engine.Tape) mutation {
 	defer wd.everTags()
+	if len(wd.recipe) == 0 && wd.collide == 0 && tp.Bool(1, 6, "startRecipe") {
+		wd.startRecipe(tp)
+	}
+	if len(wd.recipe) > 0 && tp.Bool(2, 3, "continueRecipe") {
+		wd.seq++
+		f := wd.recipe[0]
+		wd.recipe = wd.recipe[1:]
+		return f(tp)
+	}
 	wd.seq++
 	if wd.kube != nil && tp.Bool(wd.kube.weight, 10, "kubemut") {
 		return wd.kube.next(tp, wd.seq)
